@@ -129,6 +129,15 @@ func (f *fnTrans) fact(guard, t Term) {
 	f.vc.Lines = append(f.vc.Lines, fmt.Sprintf("(assert %s)", g.S))
 }
 
+// factOb records a proved-then-assumed obligation; vacuity checks leave these out.
+func (f *fnTrans) factOb(guard, t Term) {
+	g := Implies(guard, t)
+	if g.S == "true" {
+		return
+	}
+	f.vc.Lines = append(f.vc.Lines, fmt.Sprintf("(assert %s) ;ob", g.S))
+}
+
 func (f *fnTrans) here() Term { return f.at[f.curB] }
 
 func (f *fnTrans) factHere(t Term) { f.fact(f.here(), t) }
@@ -624,6 +633,14 @@ func (f *fnTrans) analyzeLoops() {
 		li.ord = i
 		if f.c != nil {
 			li.spec = f.c.Loops[i]
+			if len(f.c.AllLoopInv) > 0 || len(f.c.Protect) > 0 {
+				ns := &LoopSpec{}
+				if li.spec != nil {
+					*ns = *li.spec
+				}
+				ns.Invariants = append(append([]*Clause{}, ns.Invariants...), f.c.AllLoopInv...)
+				li.spec = ns
+			}
 		}
 		for b := range li.body {
 			f.inLoop[b] = append(f.inLoop[b], li)
@@ -865,6 +882,21 @@ func TranslateFn(w *World, fn *ssa.Function) *FnVC {
 		f.vals[fv] = t
 		f.fact(True, And(Gt(t, IntLit(0)), Le(App("root", SInt, t), f.heap("G$allocTop"))))
 	}
+	for _, gi := range w.Spec.GlobalInvs {
+		ex, err := ParseSpecExpr(gi[0])
+		if err != nil {
+			f.unsupported("%s: globalinv: %v", gi[1], err)
+			continue
+		}
+		env := &Env{w: w, names: map[string]TV{}, st: f.cur, old: f.cur, lets: map[string]SExpr{}}
+		t, err := env.EvalBool(ex)
+		if err != nil {
+			f.unsupported("%s: globalinv: %v", gi[1], err)
+			continue
+		}
+		f.fact(True, t)
+		f.noteAssumed("package-level variable fact (set by initialisation, never stored elsewhere): " + gi[0])
+	}
 	if f.c != nil {
 		env := f.env(entryB, f.entry, nil)
 		env.old = f.entry
@@ -891,6 +923,16 @@ func TranslateFn(w *World, fn *ssa.Function) *FnVC {
 
 func contractProps(c *Contract) []string {
 	set := map[string]bool{}
+	for _, p := range c.ProtectProps {
+		set[p] = true
+	}
+	for _, cls := range c.At {
+		for _, cl := range cls {
+			for _, p := range cl.Props {
+				set[p] = true
+			}
+		}
+	}
 	add := func(cls []*Clause) {
 		for _, cl := range cls {
 			for _, p := range cl.Props {
@@ -900,6 +942,7 @@ func contractProps(c *Contract) []string {
 	}
 	add(c.Requires)
 	add(c.Ensures)
+	add(c.AllLoopInv)
 	for _, l := range c.Loops {
 		add(l.Invariants)
 	}
@@ -1056,6 +1099,7 @@ func (f *fnTrans) headerPhis(li *loopInfo) []*ssa.Phi {
 
 func (f *fnTrans) checkInvariants(li *loopInfo, kind string, from *ssa.BasicBlock, st *State, guard Term) {
 	if li.spec == nil {
+		f.protectCheck(kind, fmt.Sprintf("loop%d", li.ord), from, st, guard, li.header.Instrs[0].Pos(), li.mods)
 		return
 	}
 	over := map[string]TV{}
@@ -1081,7 +1125,48 @@ func (f *fnTrans) checkInvariants(li *loopInfo, kind string, from *ssa.BasicBloc
 		}
 		f.curB = save
 		// later invariants may use earlier ones
-		f.fact(guard, t)
+		f.factOb(guard, t)
+	}
+	f.protectCheck(kind, fmt.Sprintf("loop%d", li.ord), from, st, guard, li.header.Instrs[0].Pos(), li.mods)
+}
+
+// protectGoal: heap h is unchanged (relative to function entry) on every object that existed at entry.
+func (f *fnTrans) protectGoal(h string, st *State) (Term, bool) {
+	before := Sym(h+"@0", f.w.heapSort[h])
+	if t, ok := f.entry.h[h]; ok {
+		before = t
+	}
+	after, ok := st.h[h]
+	if !ok || after.S == before.S {
+		return True, false
+	}
+	top0 := Sym("G$allocTop@0", SInt)
+	if t, ok := f.entry.h["G$allocTop"]; ok {
+		top0 = t
+	}
+	return f.frameFormula(h, nil, before, after, top0), true
+}
+
+func (f *fnTrans) protectCheck(kind, where string, from *ssa.BasicBlock, st *State, guard Term, pos token.Pos, mods map[string]bool) {
+	if f.c == nil {
+		return
+	}
+	for _, h := range f.c.Protect {
+		if mods != nil && !mods[h] {
+			continue
+		}
+		g, ok := f.protectGoal(h, st)
+		if !ok {
+			continue
+		}
+		o := f.oblige("protect", fmt.Sprintf("%s is not modified on objects that existed at entry (%s)", h, kind), pos, f.c.ProtectProps, guard, g)
+		o.Name = fmt.Sprintf("%s/protect:%s@%s", f.name, h, where)
+		if kind == "inv-step" {
+			o.Name += fmt.Sprintf(":step@b%d", from.Index)
+		} else if kind == "inv-init" {
+			o.Name += ":init"
+		}
+		f.factOb(guard, g)
 	}
 }
 
@@ -1121,6 +1206,15 @@ func (f *fnTrans) loopEntry(li *loopInfo, preds []*ssa.BasicBlock, conds []Term)
 		f.factHere(f.rangeFact(t, phi.Type()))
 		if phi.Comment != "" {
 			over[phi.Comment] = TV{t, phi.Type()}
+		}
+	}
+	if f.c != nil {
+		for _, h := range f.c.Protect {
+			if li.mods[h] {
+				if g, ok := f.protectGoal(h, f.cur); ok {
+					f.factHere(g)
+				}
+			}
 		}
 	}
 	li.preState = f.cur.Clone()
